@@ -1,5 +1,6 @@
 import WfProofs.DeployId
 import WfProofs.DeployIdExt
+import WfProofs.DeployIdRx
 /-!
 # C32 — generated deployment ids are valid DNS-1035 labels
 
@@ -396,6 +397,49 @@ theorem C32_suffix_shape (name : List Char) (d : Draw) (hd : wfDraw d = true) :
 example : appendSuffix (baseId "1".toList) ⟨"0beef".toList, 'c'⟩ = "d-1-0beef".toList := by decide
 example : appendSuffix (baseId "!!".toList) ⟨"0beef".toList, 'c'⟩ = "cbeef".toList := by decide
 
+/-- Clauses two and three of the property for every history at once: whatever the answers and
+draws, the id returned is a stem taken from the front of the base id (all of it, or its first 57
+characters), whose alphanumerics are the name's in order (after the synthetic `d`) — alone when
+the name has three alphanumerics, no suffix was forced and the first lookup said "free",
+otherwise followed by `-` and five drawn characters; or, for a name without alphanumerics,
+just five drawn characters starting with a letter. -/
+theorem C32_every_id_from_name (name : List Char) (force : Bool) (answers : List Bool)
+    (ds : List Draw) (r : List Char) (h : findId name force answers ds = some r) :
+    ∃ stem, stem <+: baseId name ∧ (stem = baseId name ∨ stem.length = 57) ∧
+      stem.filter isAlnum <+: dPrefix name ++ name.filter isAlnum ∧
+      ((r = stem ∧ stem = baseId name ∧ 3 ≤ alnumCount name ∧ force = false) ∨
+       (stem ≠ [] ∧ ∃ d ∈ ds, r = stem ++ '-' :: d.hex) ∨
+       (stem = [] ∧ alnumCount name = 0 ∧ ∃ d ∈ ds, r = appendSuffix [] d)) := by
+  rcases C32_derived_or_suffixed name force answers ds r h with ⟨hb, h3, hf⟩ | ⟨d, hd, hr⟩
+  · exact ⟨baseId name, List.prefix_refl _, Or.inl rfl, C32_base_from_name name,
+      Or.inl ⟨hb, rfl, h3, hf⟩⟩
+  · cases hbase : baseId name with
+    | nil =>
+      refine ⟨[], List.prefix_refl _, Or.inl rfl, by simp, Or.inr (Or.inr ⟨rfl, ?_, d, hd, ?_⟩)⟩
+      · exact (baseId_eq_nil_iff name).mp hbase
+      · rw [hr, hbase]
+    | cons c rest =>
+      refine ⟨(c :: rest).take 57, List.take_prefix _ _, ?_, ?_, Or.inr (Or.inl ⟨by simp, d, hd, ?_⟩)⟩
+      · by_cases hl : (c :: rest).length ≤ 57
+        · exact Or.inl (List.take_of_length_le hl)
+        · right; rw [List.length_take]; omega
+      · have := C32_base_from_name name
+        rw [hbase] at this
+        exact ((List.take_prefix 57 (c :: rest)).filter _).trans this
+      · rw [hr, hbase, appendSuffix_cons]
+
+example : findId "1".toList false [false, true] [⟨"0beef".toList, 'c'⟩, ⟨"12345".toList, 'f'⟩]
+    = some "d-1-12345".toList := by decide
+
+/-- The id `create_deployment` derives (no explicit id given) is a DNS-1035 label of at most 63
+characters, whatever the display name, the lookups' answers and the draws. -/
+theorem C32_derive_valid_label (name : List Char) (answers : List Bool) (ds : List Draw)
+    (hds : ∀ d ∈ ds, wfDraw d = true) (r : List Char) (h : deriveId name answers ds = some r) :
+    isDns1035 r = true ∧ r.length ≤ 63 :=
+  ⟨C32_valid_label name _ answers ds hds r h, C32_length_le name _ answers ds hds r h⟩
+
+example : deriveId "Ünï çode".toList [true] [] = some "n-ode".toList := by decide
+
 /-! ### reserved ids (`create_deployment` forces a suffix when `display_name.lower()` is reserved) -/
 
 /-- A display name that is itself a reserved id never gets a reserved id: the id always carries a
@@ -447,3 +491,23 @@ example : (isReserved "my service".toList || !reserved.contains (baseId "my serv
   decide
 example : (isReserved "list projects".toList || !reserved.contains (baseId "list projects".toList)) = false := by
   decide
+
+
+/-! ### the label predicate is the pattern of `schema/deployments.py` -/
+
+/-- `isDns1035` (the predicate every theorem above is stated with) is exactly the language of
+`_DNS_1035_RE`: the pattern, as Python's own `re._parser` parses it (regenerated on every run),
+is anchored at both ends, compiled without flags, used through `.match`, and a string matches it
+in full iff `isDns1035` holds.  (Python's `$` additionally matches before a final newline; no
+derived id contains one, by `C32_valid_label`.) -/
+theorem C32_label_predicate_is_the_regex :
+    Gen.DeployId.dnsAnchoredStart = true ∧ Gen.DeployId.dnsAnchoredEnd = true ∧
+    Gen.DeployId.dnsFlags = 0 ∧ Gen.DeployId.dnsMethod = "match" ∧
+    ∀ r : List Char, Lang Gen.DeployId.dnsRx r ↔ isDns1035 r = true :=
+  ⟨by decide, by decide, by decide, by decide,
+    fun r => (lang_dnsRx r).trans (labelShape_iff r)⟩
+
+example : Lang Gen.DeployId.dnsRx "d-1-0beef".toList :=
+  (C32_label_predicate_is_the_regex.2.2.2.2 _).mpr (by decide)
+example : ¬ Lang Gen.DeployId.dnsRx "1abc".toList :=
+  fun h => absurd ((C32_label_predicate_is_the_regex.2.2.2.2 _).mp h) (by decide)
